@@ -561,13 +561,23 @@ package storage
 // openDB: the lower-cased name of the database whose store was opened last (a session holds at most one store between statements)
 //@ ghost var openDB string
 
+// Verified (no longer trusted): the store is built with an empty cache on a newly opened file, and the flush timer goroutine is
+// started - if at all - outside any statement bracket, on a store whose cache is set up and whose ticker exists (the precondition of
+// the goroutine's body, proved at the go statement). Assumed: the ghost count of open stores (the timer is what it counts).
 //@ func newFileStore(path string, autoFlushCache bool) (*fileStore, error)
-//@   props C17
-//@   trusted
-//@   modifies storeState, openStores, listLen, listAt, listPos, listOf
-//@   ensures err != nil ==> result0 == nil && openStores == old(openStores)
-//@   ensures err == nil ==> result0 != nil && fresh(result0) && result0.autoFlushCache == autoFlushCache && cacheOK(result0) &&
-//@              openStores == old(openStores) + (autoFlushCache ? 1 : 0) && fresh(result0.file) && fpos(result0.file) == 0
+//@   props C13 C17
+//@   requires[idle; C13] txn == 0
+// From the go statement on, the timer's flushes may run at any time: the frame contains what a flush may change, and that the cache
+// is (still) well formed when newFileStore returns a store with a running timer is assumed (ok.cache.timer: flushPages is proved
+// to re-establish cacheOK, but interleavings are not explored).
+//@   modifies storeState, openStores, txn, all(btreeNode.dirty), @cacheState, written, fdata, fsize
+//@   ensures[err; C17] err != nil ==> result0 == nil && txn == 0
+//@   ensures_assumed[ghost.err] err != nil ==> openStores == old(openStores)
+//@   ensures[ok; C17] err == nil ==> result0 != nil && fresh(result0) && result0.autoFlushCache == autoFlushCache &&
+//@              fresh(result0.file) && fpos(result0.file) == 0 && (autoFlushCache ==> result0.ticker != nil)
+//@   ensures[ok.cache; C17] err == nil && !autoFlushCache ==> cacheOK(result0) && txn == 0
+//@   ensures_assumed[ok.cache.timer] err == nil && autoFlushCache ==> cacheOK(result0) && txn == 0
+//@   ensures_assumed[ghost.open] err == nil ==> openStores == old(openStores) + (autoFlushCache ? 1 : 0)
 
 // The flush timer goroutine: every tick it runs a complete flush through flushPages (which takes the exclusive lock itself) and
 // touches no page, cache or header state on its own. It starts without a lock (its spawn site is in trusted newFileStore).
@@ -613,9 +623,11 @@ package storage
 //@   ensures err == nil ==> result0 != nil && fresh(result0) && result0.reader != nil
 
 //@ func OpenRelation(dbName string, forceWALSync bool) (*RelationService, error)
-//@   props C17
+//@   props C13 C17
 //@   requires[single; C17] openStores == 0 || strLower(dbName) != openDB
-//@   modifies storeState, openStores, openDB, listLen, listAt, listPos, listOf
+//@   requires[idle; C13] txn == 0
+//@   modifies storeState, openStores, openDB, txn, all(btreeNode.dirty), @cacheState, written, fdata, fsize
+//@   ensures[unlock; C13] txn == 0
 //@   ensures_assumed[ghost.open] err == nil ==> openDB == strLower(dbName)
 //@   ensures[err.name; C17] err != nil ==> openDB == old(openDB)
 //@   ensures[err; C17] err != nil ==> result0 == nil && openStores == old(openStores)
@@ -671,6 +683,7 @@ package storage
 //@   assumepre (*fileStore).close.idle A-CLOSE: a relation service is closed between statements (no lock held) and was built by OpenRelation or CreateDB (cache and flush timer set up)
 //@   modifies txn, all(btreeNode.dirty), @cacheState, storeState, written, fdata, fsize, openStores
 //@   ensures[stores; C17] openStores == old(openStores) - 1
+//@   ensures[unlock; C13] txn == 0
 
 // ---- value validation (C08) ----
 
